@@ -215,13 +215,28 @@ def run(ck):
         base = L.exchange(mode, al, sc, ns, acts, rounds, tick, marks=True)
         n = L.frames_in(runner.run_batch(hcs, [("b", base)])["b"]["out"])
 
-        def add(kind, lose=(), dup=(), quiet=(), extra=""):
+        def add(kind, lose=(), dup=(), quiet=(), extra="", acts=acts, rounds=rounds, tls=1500):
             sid = "%s.%s.%s%s" % (tag, kind, "_".join(map(str, sorted(lose)[:4])), ("+d" + "_".join(map(str, sorted(dup)))) if dup else "")
             if sid in meta:
                 return
-            scripts.append((sid, L.exchange(mode, al, sc, ns, acts, rounds, tick, lose=lose, dup=dup, marks=True, quiet=quiet, extra_cfg=extra)))
+            scripts.append((sid, L.exchange(mode, al, sc, ns, acts, rounds, tick, lose=lose, dup=dup, marks=True, quiet=quiet, extra_cfg=extra, tls=tls)))
             meta[sid] = dict(mode=mode, al=al, ns=ns, kind=kind, lose=sorted(lose), dup=sorted(dup))
         add("base")
+        if mode == "bal" and not eager:
+            # balanced stations that supervise the idle line with test function frames (every 300 ms of silence): traffic, silence
+            # (test frames run), a burst of losses somewhere (a test frame may be the one that fails), traffic again of which the
+            # first user data frame of either station is lost once -- its repetition must be that frame again
+            acts_t = {r: list(a) for r, a in acts.items() if r < 30}
+            idn = 7000
+            for r in range(72, 100, 3):
+                acts_t.setdefault(r, []).append("enq1 s1 %s" % hx(L.asdu(idn, 4, typ=30, cot=3))); idn += 1
+                acts_t.setdefault(r + 1, []).append("msend s1 %s" % hx(L.asdu(idn, 4, typ=45, cot=6))); idn += 1
+            acts_t[71] = acts_t.get(71, []) + ["losenext m", "losenext s1"]
+            xt = " idle=300"
+            nt = L.frames_in(runner.run_batch(hcs, [("b", L.exchange(mode, al, sc, ns, acts_t, 130, tick, marks=True, extra_cfg=xt, tls=400))])["b"]["out"])
+            add("idletest-first-data", [], extra=xt, acts=acts_t, rounds=130, tls=400)
+            for k in range(1, nt - 8, 3 if quick else 1):
+                add("idletest-burst+first-data", range(k, k + 9), extra=xt, acts=acts_t, rounds=130, tls=400)
         if mode == "unb" and eager:
             # the master application polls only every third round: between the polls nothing but its own commands waits, so a hand-over
             # can fall between a transmission and its confirmation; with every confirmation lost in turn
